@@ -1293,7 +1293,7 @@ theorem pageMembers_nil_of_len0 {p : CPage} (hp : CPageOk p) (h : p.len = 0) :
   exact List.eq_nil_of_length_eq_zero h1
 
 /-- specification of the binary search on a map strictly sorted by major -/
-theorem searchMap_spec : ∀ (pm : PMap), (pm.map (·.1)).Pairwise (· < ·) → ∀ (m : Nat),
+theorem searchMap_specI : ∀ (pm : PMap), (pm.map (·.1)).Pairwise (· < ·) → ∀ (m : Nat),
     (∀ e ∈ pm.take (searchMap pm m).2, e.1 < m) ∧
       ((searchMap pm m).1 = true → ∃ e, pm[(searchMap pm m).2]? = some e ∧ e.1 = m) ∧
       (∀ e ∈ pm.drop (if (searchMap pm m).1 then (searchMap pm m).2 + 1 else (searchMap pm m).2),
@@ -1351,7 +1351,7 @@ theorem mem_viewMembersNE {V : List (Nat × CPage)} {x : Nat} (h : x ∈ viewMem
 theorem iterAfter_eq {s : CBitSet} (hs : CInv s) (v : Nat) :
     s.iterAfter v = s.abs.members.filter (fun x => decide (v < x)) := by
   have hV := view_all_ok hs
-  obtain ⟨sp1, sp2, sp3⟩ := searchMap_spec s.pageMap hs.sorted (majorOf v)
+  obtain ⟨sp1, sp2, sp3⟩ := searchMap_specI s.pageMap hs.sorted (majorOf v)
   generalize hr : searchMap s.pageMap (majorOf v) = r at sp1 sp2 sp3
   obtain ⟨found, i⟩ := r
   simp only at sp1 sp2 sp3
